@@ -109,6 +109,7 @@ class Result:
         self.raw_ok = False
         self.weave_error = None
         self.workdir = None
+        self.vacuity = None
 
 
 def locate_fn(anchors, file, line):
@@ -139,8 +140,12 @@ def all_spans(d):
     return out
 
 
+REAL_MODULES = ["buffer", "cell", "charset", "color", "line", "parser", "pen", "tabs", "terminal",
+                "terminal::cursor", "terminal::dirty_lines", "util", "vt"]
+
+
 def run(repo="/repo", modules=None, function=None, keep=None, rlimit=None, threads=16,
-        multiple_errors=10, contracts_dir=None, extra_args=(), timeout=3600):
+        multiple_errors=10, contracts_dir=None, extra_args=(), timeout=3600, vacuity=False):
     res = Result()
     t0 = time.time()
     ensure_deps(repo, log=lambda m: print(m, file=sys.stderr))
@@ -166,18 +171,41 @@ def run(repo="/repo", modules=None, function=None, keep=None, rlimit=None, threa
         if function:
             args += ["--verify-only-module", modules[0], "--verify-function", function]
         else:
-            for m in (modules or []):
+            for m in (modules or REAL_MODULES):
                 args += ["--verify-module", m]
+            if not modules:
+                args += ["--verify-root"]
         args += list(extra_args)
         cmd = verus_cmd(args)
         res.cmd = " ".join(cmd)
+        vp = None
+        if vacuity:
+            vcmd = verus_cmd(["--smt-option", "smt.dt_lazy_splits=2", "--output-json", "--error-format=json",
+                              "--multiple-errors", "1", "--num-threads", "4", "--verify-only-module", "verif_vacuity"])
+            vp = subprocess.Popen(vcmd, cwd=out, stdout=subprocess.PIPE, stderr=subprocess.PIPE, text=True)
         try:
             p = subprocess.run(cmd, cwd=out, stdout=subprocess.PIPE, stderr=subprocess.PIPE, text=True,
                                timeout=timeout)
         except subprocess.TimeoutExpired:
             res.undecided.append({"reason": "verus timed out after %ds" % timeout, "rendered": ""})
+            if vp:
+                vp.kill()
             return res
         parse(res, p.stdout, p.stderr, anchors)
+        if vp:
+            try:
+                vo, ve = vp.communicate(timeout=timeout)
+                i = vo.find("{")
+                vj = json.loads(vo[i:]) if i >= 0 else {}
+                vr = vj.get("verification-results", {})
+                n = anchors.get("vacuity_probes", 0)
+                res.vacuity = {"probes": n, "failed_as_expected": vr.get("errors", 0), "verified_vacuous": vr.get("verified", 0)}
+                if vr.get("encountered-vir-error") or (vr.get("errors", 0) + vr.get("verified", 0)) != n:
+                    res.undecided.append({"reason": "vacuity module did not run cleanly (%s)" % json.dumps(vr), "rendered": ve[-2000:]})
+                elif vr.get("verified", 0) != 0:
+                    res.undecided.append({"reason": "VACUOUS precondition: %d probe(s) verified `false`" % vr.get("verified", 0), "rendered": ve[-2000:]})
+            except Exception as e:
+                res.undecided.append({"reason": "vacuity run failed: %s" % e, "rendered": ""})
         if keep:
             open(os.path.join(work, "verus.stdout"), "w").write(p.stdout)
             open(os.path.join(work, "verus.stderr"), "w").write(p.stderr)
